@@ -118,13 +118,20 @@ func HarnessC18() {
 		if err != nil {
 			return
 		}
+		// the encoder is used by all requests: another message is encoded before this
+		// one is decoded (the result must not depend on what the encoder does later)
+		other := vrtStr("otherdata")
+		vrtAssume(other != data)
+		if _, err2 := xml.DeflateAndBase64([]byte(other)); err2 != nil {
+			vrtAssert("C18.encoder-succeeds", false)
+		}
 		out, err := xml.InflateAndDecode(xml.EncodingDeflate, true, string(enc))
 		vrtCover("C18.roundtrip")
-		if err == nil {
-			vrtAssert("C18.roundtrip-returns-the-original-bytes", string(out) == data)
-		}
+		// the original bytes or (beyond 1 MiB, where a decompression limit may apply) an error - never other bytes
 		if vrtLenBound(data, 1<<20) {
-			vrtAssert("C18.roundtrip-succeeds-up-to-1MiB", err == nil)
+			vrtAssert("C18.roundtrip-returns-the-original-bytes", err == nil && string(out) == data)
+		} else {
+			vrtAssert("C18.roundtrip-returns-the-original-bytes", err != nil || string(out) == data)
 		}
 	}
 }
